@@ -52,6 +52,7 @@ class Gen:
                  allow_pauli_measure=True, keyed_channels=True, max_ops=10, leaf_bits_cap=8.0,
                  allow_subcircuits=False):
         self.allow_subcircuits = allow_subcircuits and allow_measure
+        self.allow_qubitless = False            # set by a workload that can drive a circuit without qubits
         self.product_clifford_gates = False     # set by a workload that routes such circuits to general simulators
         self.t = tape
         self.clifford_only = clifford_only
@@ -694,6 +695,13 @@ class Gen:
     def circuit(self) -> cirq.Circuit:
         n_ops = 2 + self.t.draw(self.max_ops - 1, "n-ops")
         c = cirq.Circuit()
+        if not self.clifford_only and self.allow_qubitless and self.t.chance(1, 40, "qubit-less-circuit?"):
+            # a circuit of operations on no qubits only: the whole system is the qubit-less part of the state
+            for _ in range(1 + self.t.draw(2, "n-phases")):
+                c.append(self.global_phase())
+            self.kinds.append("global-phase")
+            self.features.add("qubit-less-circuit")
+            return c
         # start from an asymmetric product state so that swapped columns / wrong marginals show
         if not self.clifford_only and self.t.chance(3, 4, "asymmetric-start?"):
             for q in self.qubits_only():
